@@ -140,7 +140,7 @@ type model struct {
 	pr, dr   int    // replicas per datacenter (0: 2 / 1)
 }
 
-var stores = map[uint64]string{1: "dc1", 2: "dc1", 3: "dc1", 4: "dc2", 5: "dc2"}
+var stores = map[uint64]string{1: "dc1", 2: "dc1", 3: "dc1", 4: "dc2", 5: "dc2", 6: "dc3"} // store 6 belongs to neither datacenter
 
 // replica counts of the two datacenters (set by the model at Reset; 2/1 unless the scope says otherwise)
 var primaryReplicas, drReplicas = 2, 1
@@ -156,7 +156,7 @@ func baseConf(mode, labelKey string) config.ReplicationModeConfig {
 func newModel(nregions, gapAt, batch int, faults, configs bool) *model {
 	m := &model{nregions: nregions, gapAt: gapAt, batch: batch}
 	add := func(o op) { m.ops = append(m.ops, o) }
-	for _, id := range []uint64{1, 2, 4, 5} {
+	for _, id := range []uint64{1, 2, 4, 5, 6} {
 		add(op{kind: "down", id: id})
 		add(op{kind: "up", id: id})
 	}
@@ -304,9 +304,10 @@ func (m *model) Key() string {
 func (m *model) failCounts() (p, d int) {
 	for id, dn := range m.down {
 		if dn {
-			if stores[id] == "dc1" {
+			switch stores[id] {
+			case "dc1":
 				p++
-			} else {
+			case "dc2":
 				d++
 			}
 		}
